@@ -295,7 +295,7 @@ class CaseGen:
                 if kind == "step":
                     op = [1, x, k]
                 else:
-                    op = [2, pi, x, k]
+                    op = [2, pi, x, k] if rng.random() < 0.85 else [2, pi, x, k, 1]     # ... or on its checkpoint copy
             elif kind == "goal":
                 # mostly about a recently produced state (the end of a branch), else any state handed out so far
                 n_ = len(runner.pool)
@@ -366,7 +366,8 @@ class CaseGen:
 def model_ops(ops):
     """the operations as the model sees them: a goal query that is preceded by render calls ([3, i, 1]) is, for
     the model, the plain goal query (rendering is documented to change nothing)"""
-    return [[3, op[1]] if op[0] == 3 else [5] if op[0] == 5 else [0] if op[0] == 0 else op for op in ops]
+    return [[3, op[1]] if op[0] == 3 else [5] if op[0] == 5 else [0] if op[0] == 0 else op[:4] if op[0] == 2 else op
+            for op in ops]
 
 
 def has_bad(x):
